@@ -313,6 +313,9 @@ pub struct Op {
     pub kind: Kind,
     pub cmd: Cmd,
     pub text: String,
+    /// BFS levels at which the explorer applies this op: 0 = every level, otherwise
+    /// bit d is set when the op is enabled in states reached by d ops (layered alphabets)
+    pub levels: u8,
 }
 
 impl Op {
@@ -326,11 +329,19 @@ impl Op {
             Kind::Feed
         };
         let text = cmd.spell(sp);
-        Op { kind, cmd, text }
+        Op { kind, cmd, text, levels: 0 }
     }
     pub fn kind(mut self, k: Kind) -> Op {
         self.kind = k;
         self
+    }
+    /// enable only at the BFS levels of the mask (bit d = after d ops)
+    pub fn at(mut self, mask: u8) -> Op {
+        self.levels = mask;
+        self
+    }
+    pub fn enabled_at(&self, depth: usize) -> bool {
+        self.levels == 0 || (depth < 8 && self.levels & (1 << depth) != 0)
     }
     pub fn text(s: &str) -> Op {
         Op::new(Cmd::Text(s.to_string()))
